@@ -137,3 +137,92 @@ Definition route_of (a : api) (d : desc) (o : opdesc) : route :=
   mkroute (route_produces_of (a_default a) (effective_produces d o)) true [200].
 Definition exercise (a : api) (d : desc) (o : opdesc) : outcome :=
   serve (a_default a) (a_producers a) (route_of a d o) [] false NoAuth DValue.
+
+(* ---- a history on ONE API value: batches of registrations, Validate() after each batch ----
+   Validate keeps nothing between calls: the k-th answer is what a fresh API value holding every
+   registration made so far answers. *)
+Fixpoint validate_history (a : api) (d : desc) (steps : list (list reg)) : list (option failure) :=
+  match steps with
+  | [] => []
+  | s :: r => let a' := fold_left apply_reg s a in validate a' d :: validate_history a' d r
+  end.
+
+(* ---- one request to a declared operation of the API, through the whole handler ----
+   The request: the operation addressed (index in the description), the Content-Type header as sent (empty = no body),
+   the Accept header lines (none = header absent), the schemes for which it carries valid credentials. *)
+Record request := mkreq { rq_op : nat; rq_ct : bytes; rq_accept : list bytes; rq_creds : list bytes }.
+(* What comes back. Outcome: 0 the handler of that operation ran and 200 was written, 1 answered 500 no consumer registered,
+   2 panic cannot find a producer, 3 anything else, 4 not routed (404 or 405), 5 content type refused (415),
+   6 nothing acceptable (406), 7 not authenticated (401). For outcome 0: the Content-Type of the response and the
+   key of the producer that wrote it; both empty otherwise. *)
+Record result := mkres { rs_outcome : nat; rs_ctype : bytes; rs_producer : bytes }.
+Definition res_fail (k : nat) : result := mkres k [] [].
+
+(* mime.ParseMediaType on a well-formed header: the text before the first semicolon, lower-cased, blanks trimmed *)
+Definition trim_space (s : bytes) : bytes := rev (drop_while is_space (rev (drop_while is_space s))).
+Definition media_type_of (ct : bytes) : bytes := lower (trim_space (split_semi ct)).
+
+(* RouteAuthenticators.Authenticate over authenticators that accept exactly the credentials of their own scheme:
+   an alternative applies when each of its schemes has a registered authenticator and credentials in the request;
+   the empty alternative allows anonymous access when no other applies; no alternatives = no authentication *)
+Definition is_nil {A} (l : list A) : bool := match l with [] => true | _ => false end.
+Definition alt_applies (auths creds alt : list bytes) : bool :=
+  negb (is_nil alt) && forallb (fun s => mem_bytes s auths && mem_bytes s creds) alt.
+Definition auth_passes (auths : list bytes) (alts : list (list bytes)) (creds : list bytes) : bool :=
+  is_nil alts || existsb (alt_applies auths creds) alts || existsb is_nil alts.
+
+(* the route's consumes: the admitted media types, then the API default unless it is there up to letter case
+   (AddRoute treats consumes and produces alike) *)
+Definition route_consumes_of (a : api) (d : desc) (o : opdesc) : list bytes :=
+  route_produces_of (a_default a) (effective_consumes d o).
+(* validateContentType for consumes entries without wildcards: nothing declared admits anything *)
+Definition content_admitted (allowed : list bytes) (mt : bytes) : bool :=
+  is_nil allowed || contains_ci (map normalize_offer allowed) mt.
+(* route.Consumers = api.ConsumersFor(normalizeOffers(route.Consumes)), looked up under the parsed media type *)
+Definition consumer_found (a : api) (allowed : list bytes) (mt : bytes) : bool :=
+  mem_bytes mt (map normalize_offer allowed) && mem_bytes mt (a_consumers a).
+
+(* Two declared operations of one method whose templates path.Clean maps to one route (F-C19-2, the colliding sub-case):
+   AddRoute finds, for the operation whose template is not in normal form, the handler registered under the cleaned
+   template, i.e. the OTHER operation's handler, and adds a second record under the same route. Which of the two records
+   the router keeps depends on a map order (consumes, produces and security of the winner apply: unspecified here); the
+   handler is the other operation's in both, so a request to the operation with the unclean template never runs its own
+   handler. *)
+Definition own_template (d : desc) (o : opdesc) : bool := bytes_eqb (route_template d o) (op_path o).
+Definition same_route (d : desc) (o o' : opdesc) : bool :=
+  bytes_eqb (upper (op_method o)) (upper (op_method o')) && bytes_eqb (full_route d o) (full_route d o') &&
+  negb (bytes_eqb (op_path o) (op_path o')).
+Definition route_collides (d : desc) (o : opdesc) : bool := existsb (same_route d o) (g_ops d).
+
+(* router, security, content type, response format, handler returning a value (C08's serve) *)
+Definition serve_request (a : api) (d : desc) (o : opdesc) (rq : request) : result :=
+  if negb (route_added a d o) then res_fail 4 else
+  if negb (own_template d o) then res_fail 3 else     (* routed to the handler of the operation declared under the cleaned template *)
+  if negb (auth_passes (a_auths a) (effective_security d o) (rq_creds rq)) then res_fail 7 else
+  let allowed := route_consumes_of a d o in
+  let mt := media_type_of (rq_ct rq) in
+  let has_body := negb (is_nil (rq_ct rq)) in
+  if has_body && negb (content_admitted allowed mt) then res_fail 5 else
+  if has_body && negb (consumer_found a allowed mt) then res_fail 1 else
+  match parse_accept (rq_accept rq) with
+  | None => res_fail 3
+  | Some specs =>
+    match serve (a_default a) (a_producers a) (route_of a d o) specs false NoAuth DValue with
+    | Panicked PNoProducer _ => res_fail 2
+    | Panicked PNilRoute _ => res_fail 3
+    | Responded r =>
+      match o_error r, o_producer r with
+      | Some e, _ => if Nat.eqb e 406 then res_fail 6 else res_fail 3
+      | None, Some p => mkres 0 (o_ctype r) p
+      | None, None => res_fail 3
+      end
+    end
+  end.
+
+Definition serve_one (a : api) (d : desc) (rq : request) : result :=
+  match nth_error (g_ops d) (rq_op rq) with
+  | None => res_fail 3
+  | Some o => serve_request a d o rq
+  end.
+(* a history of requests on ONE handler: the handler keeps nothing between requests *)
+Definition serve_history (a : api) (d : desc) (rqs : list request) : list result := map (serve_one a d) rqs.
